@@ -130,9 +130,16 @@ def decodeFormat0 (data : Bytes) : Outcome (Bytes × Cost) := do
   -- res := &Format0{}; copy(res.Data[:], data): res.Data[:] slices a [256]byte array
   .ok (d, (Cost.zero.tick 256).mem 256)
 
-/-- `Format0.Lookup(r)` (format0.go:50-55) for a rune `r` (an `int32`): the guard `r > 255`
-does not exclude negative runes. -/
+/-- `Format0.Lookup(r)` (format0.go:50-55, as repaired: `if r < 0 || r > 255 { return 0 }`) for a
+rune `r` (an `int32`) -/
 def lookup0 (d : Bytes) (r : Int) : Outcome Nat :=
+  if r < 0 ∨ r > 255 then .ok 0 else do
+    let v ← idx "format0.go:54#cmap.Data[r]" d r.toNat
+    pure v.toNat
+
+/-- `Format0.Lookup(r)` BEFORE the repair: the guard `r > 255` did not exclude negative runes
+(kept as documentation of the finding C02-format0-lookup-negative). -/
+def lookup0Old (d : Bytes) (r : Int) : Outcome Nat :=
   if r > 255 then .ok 0 else
   match r with
   | .ofNat n => do
